@@ -46,6 +46,14 @@ let line l =
        let idom = Stdlib.List.map (function A "-" -> None | x -> Some (num_n x)) ds in
        if DegJustify.djust_cfg (r_cfg cx) idom then "(justified)" else "(unjustified)"
      | _ -> "(badline)")
+  | "djustle" ->
+    (* djustle (cfg ...) (idom ...) : the weaker verified validator (a claimed upper end may exceed the table's) *)
+    let rest = Stdlib.String.sub l (sp1 + 1) (Stdlib.String.length l - sp1 - 1) in
+    (match parse_sexp ("(" ^ rest ^ ")") with
+     | L [cx; L (A "idom" :: ds)] ->
+       let idom = Stdlib.List.map (function A "-" -> None | x -> Some (num_n x)) ds in
+       if DegJustifyLe.djust_cfg_le (r_cfg cx) idom then "(justified)" else "(unjustified)"
+     | _ -> "(badline)")
   | "deggraph" ->
     (* deggraph (cfg ...) (idom ...) : the decidable hypotheses about the graph and the dominator table of the
        table-free degree theorems (C07_decides_is_dominance_control_dependence, C07_validated_graph_degrees_true_table_free) *)
@@ -55,7 +63,10 @@ let line l =
        let idom = Stdlib.List.map (function A "-" -> None | x -> Some (num_n x)) ds in
        let c = r_cfg cx in
        if not (DegGraph.graph_consistent c) then "(graph-inconsistent)"
-       else if not (DegGraph.idom_is_dominator_table c idom) then "(idom-not-the-dominator-table)" else "(deg-graph-ok)"
+       else if not (DegGraph.idom_is_dominator_table c idom) then "(idom-not-the-dominator-table)"
+       else if not (DegGraph.single_assignment_b c) then "(local-assigned-twice)"
+       (* forward_b: loop-free, the hypothesis of C07_loop_free_graph_claims_true (not a defect when false) *)
+       else if DegGraph.forward_b c then "(deg-graph-ok loop-free)" else "(deg-graph-ok loops)"
      | _ -> "(badline)")
   | "ssa" ->
     (* ssa (cfg ...) (dominfo (frontier ..) (children ..)) : the construction mirror *)
